@@ -69,6 +69,7 @@ type ipamEnv struct {
 	container *restful.Container
 	nodes     []corev1.Node
 	barrierN  int
+	fault     faultState
 }
 
 func mkNode(name, addr string, hasAddr bool) corev1.Node {
@@ -120,7 +121,9 @@ func newIPAMEnv(o ipamEnvOpts) (*ipamEnv, error) {
 	}
 	e.kube = k8sfake.NewSimpleClientset(objs...)
 	e.kube.PrependReactor("create", "pods", e.bindingReactor)
+	e.kube.PrependReactor("*", "*", e.fault.reactor)
 	e.gcli = galaxyfake.NewSimpleClientset(o.fipObjs...)
+	e.gcli.PrependReactor("*", "*", e.fault.reactor)
 	e.ext = extfake.NewSimpleClientset(o.crdObjs...)
 	listKinds := map[schema.GroupVersionResource]string{}
 	for _, g := range crdGroups {
@@ -314,6 +317,18 @@ func (e *ipamEnv) probe(pod *corev1.Pod, step func(string)) {
 		}
 	}
 	e.plugin.LockDpPool(prefix)()
+}
+
+// flushFaultCounters moves the fault counters of the instance into the run.
+func (e *ipamEnv) flushFaultCounters(c *child) {
+	armed, hits := e.fault.take()
+	if armed > 0 {
+		c.run.Count("faults_armed", armed)
+	}
+	for k, n := range hits {
+		c.run.Count("faults_hit_"+k, n)
+		c.run.Count("faults_hit", n)
+	}
 }
 
 // drainReleaseEvents hands queued release events to unbind, as the plugin's loop goroutines do.
